@@ -23,6 +23,7 @@ import logging
 import traceback
 import base64
 import numpy as np
+from copy import deepcopy
 
 _cache = None
 
@@ -395,6 +396,7 @@ class MemoryCache(CacheMixin):
 
     def __init__(self):
         self.storage = {}
+        self.placeholders = set()  # keys holding metadata only (no data stored yet)
 
     @classmethod
     def from_config(cls, config):
@@ -402,11 +404,12 @@ class MemoryCache(CacheMixin):
 
     def clean(self):
         self.storage = {}
+        self.placeholders = set()
 
     def get(self, key):
         state = self.storage.get(key)
 
-        if state is None:
+        if state is None or key in self.placeholders:
             return None
         else:
             if state.metadata.get("status") != "ready":
@@ -425,18 +428,22 @@ class MemoryCache(CacheMixin):
             return None
         state.metadata["status"] = "ready"
         self.storage[state.query] = state.clone()
+        self.placeholders.discard(state.query)
         return True
 
     def store_metadata(self, metadata):
         key = metadata["query"]
-        self.storage[key] = self.storage.get(key, State())
-        self.storage[key].metadata = metadata
+        if key not in self.storage:
+            self.storage[key] = State()
+            self.placeholders.add(key)
+        self.storage[key].metadata = deepcopy(metadata)
 
         return True
 
     def remove(self, key):
         if key in self.storage:
             del self.storage[key]
+        self.placeholders.discard(key)
         return True
 
     def contains(self, key):
